@@ -102,6 +102,11 @@ func VH_C11_program() {
 			p.expect("HEAD", "/p1", nil, ids)
 		}
 	}
+	if on(12) { // a HEAD route at top level whose path equals the group-relative path of a GET route declared below
+		hs, ids := p.list(1)
+		r.Head("/p3", hs...)
+		p.expect("HEAD", "/p3", nil, ids)
+	}
 	g1, g1ids := p.list(nh())
 	r.Group(G, func() {
 		if on(1) { // 1
@@ -262,7 +267,7 @@ func VH_C11_program() {
 	}
 
 	// ---- every (method, path) of the template, after the whole program ran
-	paths := []string{"/p1", G + "/p2", G + H + "/p3", G + H + "/p4", G + H + "/p5", G + "/c", "/p7", "/tc", "/p2", H + "/p3", G + "/p3", "/c", G + "/tc", G + "/o", G, "/o", G + "/", "/ga/cz", "/gb/cz", "/cz"}
+	paths := []string{"/p1", G + "/p2", G + H + "/p3", G + H + "/p4", G + H + "/p5", G + "/c", "/p7", "/tc", "/p2", H + "/p3", G + "/p3", "/c", G + "/tc", G + "/o", G, "/o", G + "/", "/ga/cz", "/gb/cz", "/cz", "/p3"}
 	allOK := true
 	for _, path := range paths {
 		for _, m := range vC11Methods {
